@@ -246,6 +246,21 @@ func (f *Faults) end(idx int, res string, err error, a Action) {
 	f.mu.Unlock()
 }
 
+// Revive ends dead mode (the "process" restarts on the same durable state).
+func (f *Faults) Revive() { f.mu.Lock(); f.Dead = false; f.mu.Unlock() }
+
+// IsDead reports whether the crash point has been passed.
+func (f *Faults) IsDead() bool { f.mu.Lock(); defer f.mu.Unlock(); return f.Dead }
+
+// ClearPlan removes every planned action (the log and counters are kept).
+func (f *Faults) ClearPlan() {
+	f.mu.Lock()
+	f.Plan = map[int]Action{}
+	f.ByKind = map[string]map[int]Action{}
+	f.OnGate = nil
+	f.mu.Unlock()
+}
+
 // Ops returns the number of operations begun so far.
 func (f *Faults) Ops() int { f.mu.Lock(); defer f.mu.Unlock(); return f.n }
 
